@@ -319,7 +319,14 @@ func BuildCte(query *Query, expr *sqlparser.With) error {
 	}
 	for _, cte := range expr.CTEs {
 		copy := *cte
+		// a CTE that (directly or through others) reads from itself would recurse for ever
+		evaluating := false
 		query.data[copy.ID.String()] = CteEvaluation(func() (any, error) {
+			if evaluating {
+				return nil, UNSUPPORTED_CASE.Extend(fmt.Sprintf("cte %s references itself", copy.ID.String()))
+			}
+			evaluating = true
+			defer func() { evaluating = false }()
 			query, err := Prepare(query.data, copy.Subquery, query.options)
 			if err != nil {
 				return nil, err
